@@ -463,3 +463,15 @@ package smtp
 //@   requires[C14:wf] a != nil && a.h != nil
 //@   modifies[C14:frame] any.hdata, any.hkey, any.halg
 //@   loop 1 invariant[C14:frame] kept("A.byte") && freshslice(clientProof) && 0 <= i && len(clientProof) == len(clientSignature)
+
+// ---------------------------------------------------------------------------
+// C04 (continued): ESMTP parameters only for extensions of the current extension map
+//
+// The map c.ext is what the latest EHLO reply advertised (ehlo() replaces it, helo() drops it - proved above).
+// The MAIL line carries BODY=8BITMIME / SMTPUTF8 / RET= exactly for extensions in that map, the RCPT line
+// carries NOTIFY= only when DSN is in it.
+//@ fn mailfmt1(c *smtp.Client) string = ((c.ext != nil && ("8BITMIME" in c.ext)) ? "MAIL FROM:<%s>" + " BODY=8BITMIME" : "MAIL FROM:<%s>")
+//@ fn mailfmt2(c *smtp.Client) string = ((c.ext != nil && ("SMTPUTF8" in c.ext)) ? mailfmt1(c) + " SMTPUTF8" : mailfmt1(c))
+//@ fn mailfmt(c *smtp.Client) string = ((c.ext != nil && ("DSN" in c.ext) && c.dsnmrtype != "") ? mailfmt2(c) + (" RET=" + c.dsnmrtype) : mailfmt2(c))
+//@ at smtp.Client.Mail smtp.Client.cmd#1 before assert[C04:parameters-only-when-advertised] arg2 == mailfmt(c)
+//@ at smtp.Client.Rcpt smtp.Client.cmd#2 before assert[C04:notify-only-with-dsn] c.ext != nil && ("DSN" in c.ext)
